@@ -206,6 +206,7 @@ def gen_charsets():
     f_getString = function_body(tkz, r"bool\s+tokenizer_t::getString\s*\(", "tokenizer.cpp")
     f_getRaw = function_body(tkz, r"void\s+tokenizer_t::getRawString\s*\(", "tokenizer.cpp")
     f_getChar = function_body(tkz, r"token_t\*\s+tokenizer_t::getCharToken\s*\(", "tokenizer.cpp")
+    f_getHeader = function_body(tkz, r"std::string\s+tokenizer_t::getHeader\s*\(", "tokenizer.cpp")
     f_peekId = function_body(tkz, r"int\s+tokenizer_t::peekForIdentifier\s*\(", "tokenizer.cpp")
     f_shallow = function_body(tkz, r"int\s+tokenizer_t::shallowPeek\s*\(", "tokenizer.cpp")
     f_block = function_body(tkz, r"token_t\*\s+tokenizer_t::getBlockCommentToken\s*\(", "tokenizer.cpp")
@@ -230,6 +231,8 @@ def gen_charsets():
         ("FL1 getString checks for the closing quote", has(f_getString, "if (*fp.start != '\"') { printError(")),
         ("FL1 getRawString checks for the opening parenthesis", has(f_getRaw, "skipTo(\"(\\n\"); if (*fp.start != '(') {")),
         ("FL1 getCharToken checks for the closing quote", has(f_getChar, "skipTo(\"'\\n\"); if (*fp.start != '\\'') {")),
+        ("FL1 getHeader checks for the closing bracket and returns an empty name on malformed headers",
+         has(f_getHeader, "skipTo(\">\\n\"); if (*fp.start != '>') {", "pop(); pop(); return \"\"; }") and "NULL" not in f_getHeader),
         ("FL2 peekForIdentifier looks at the next character only",
          has(f_peekId, "const char next = *fp.start;") and "shallowPeek" not in f_peekId),
         ("FL3 shallowPeek keeps true1/false0 identifiers",
